@@ -237,13 +237,15 @@ class Matrix:
             k = solve(res)
             v = self @ k
             for k_, v_, v2_ in krylov:  # orthogonolize v (modified Gramm-Schmidt)
-                c = _vdot(v, v_) / v2_
+                c = _safediv(_vdot(v, v_), v2_)
                 k -= k_ * c
                 v -= v_ * c
             v2 = _vdot(v)
-            if not v2.all():
+            if not v2.any():
                 break
-            c = _vdot(v, res) / v2  # min_c |res - c v| => c = v.res / v.v
+            # in case of multiple right hand sides some columns may have
+            # converged already (v2 == 0), these receive no further update
+            c = _safediv(_vdot(v, res), v2)  # min_c |res - c v| => c = v.res / v.v
             newlhs = lhs + k * c
             res = rhs - self @ newlhs  # recompute rather than update to avoid drift
             newresnorm = numpy.linalg.norm(res, axis=0).max()
@@ -344,6 +346,13 @@ class Matrix:
 
     def __repr__(self):
         return '{}<{}x{}>'.format(type(self).__qualname__, *self.shape)
+
+
+def _safediv(a, b):
+    # a / b, or zero where b is zero
+    a = numpy.asarray(a)
+    b = numpy.asarray(b)
+    return numpy.divide(a, b, out=numpy.zeros(numpy.broadcast(a, b).shape, dtype=numpy.result_type(a, b, float)), where=b != 0)
 
 
 def _vdot(a, b=None):
